@@ -3,9 +3,12 @@
    Determinism of the emitted TEXT and byte-identity of the shipped files are
    observed (translation validation in the `units` stream and the shipped-output
    comparison); the theorem part is the agreement of the two parsers, which is
-   what makes the targets agree. *)
+   what makes the targets agree: [C13_parsers_agree] for ALL well-formed declarations
+   (any nesting depth, any names; Proofs/ParserAgree.v), and the older exhaustive check
+   of the depth<=2 enumeration, which the general theorem's premise covers entirely
+   ([C13_premise_covers_enumeration]). *)
 From Coq Require Import List Bool String Ascii ZArith Arith.
-From Verif Require Import Util Ints Node GoSrc Shapes GenUnits ParserFacts.
+From Verif Require Import Util Ints Node GoSrc Shapes GenUnits ParserFacts ParserAgree.
 Import ListNotations.
 Local Open Scope string_scope.
 
@@ -30,3 +33,78 @@ Definition blob_unit : string * ty := ("T", TStruct [("F", TNamed "Blob" (TSlice
 Theorem C13_refuted_named_bytes : parsers_agree_b blob_unit = false /\ sup_root (snd blob_unit) = false.
 Proof. vm_compute. split; reflexivity. Qed.
 Print Assumptions C13_refuted_named_bytes.
+
+(* ---------- the unbounded theorem ----------
+   The two parsers build the same node for EVERY root declaration `type n body` - no bound on
+   nesting depth, any identifiers, any package name - under two decidable premises:
+   * the import path is not empty (with an empty path the loader parser does not strip
+     qualifiers at all, the printed names keep a leading ".");
+   * [pwf_root n body] (Proofs/ParserAgree.v): the root is a struct, a map or a slice (a slice not
+     called "[]byte"), and every type below it is well-formed: no pointer to a pointer; an unnamed
+     map type mentions at most one named type in its printed form (strings.Replace(.., 1) removes
+     ONE qualifier); struct literals only as definitions of named types; named types have
+     non-empty names and are not defined as pointers; a named slice used outside a pointer does
+     not print as "[]byte".
+   Nothing is assumed about '.' or any other character in the import path, the package name or
+   the identifiers: the first occurrence of `imp ++ "."` in a printed type is the qualifier of
+   its first named reference because everything printed before it is dot-free. *)
+Theorem C13_parsers_agree : forall pkg imp n body,
+  String.eqb imp "" = false -> pwf_root n body = true ->
+  parse_ast_decl pkg imp n body = parse_loader_decl pkg imp n body.
+Proof. exact parsers_agree_wf. Qed.
+Print Assumptions C13_parsers_agree.
+
+(* whole units: every declaration is a well-formed root or a named scalar (never eligible) *)
+Theorem C13_parsers_agree_units : forall u,
+  forallb pwf_decl (decls_of_root (fst u) (snd u)) = true -> ast_nodes_of u = loader_nodes_of u.
+Proof. exact units_agree. Qed.
+Print Assumptions C13_parsers_agree_units.
+
+Theorem C13_same_xml : forall pkg imp n body,
+  String.eqb imp "" = false -> pwf_root n body = true ->
+  xml (parse_ast_decl pkg imp n body) = xml (parse_loader_decl pkg imp n body).
+Proof. intros pkg imp n body I W. rewrite (C13_parsers_agree pkg imp n body I W). reflexivity. Qed.
+Print Assumptions C13_same_xml.
+
+(* the premises hold for every unit of the enumerated supported fragment: its import path, its
+   root, and all the declarations it brings along *)
+Example C13_premise_covers_enumeration :
+  forallb (fun u => negb (String.eqb (imp_of (fst u)) "") && pwf_root (fst u) (snd u) &&
+                    forallb pwf_decl (decls_of_root (fst u) (snd u))) (supported_units 1) = true.
+Proof. vm_compute. reflexivity. Qed.
+
+(* ... and far beyond it: deeper nesting, an import path with dots, alias chains *)
+Example C13_premise_deep :
+  String.eqb "github.com/koykov/inspector/testobj" "" = false /\
+  pwf_root "Deep" (TMap t_string (TSlice (TMap t_int32 (TSlice (TPtr (TMap (TPtr t_string) (TSlice (TPtr leaf)))))))) = true /\
+  pwf_root "S" (TStruct [("A", TNamed "Alias" mid); ("B", TPtr (TNamed "Blob" t_bytes)); ("C", TSlice (TSlice (TSlice item)))]) = true.
+Proof. vm_compute. repeat split. Qed.
+
+(* the premises are not decoration: without each of them the parsers differ *)
+Example C13_needs_import_path :
+  let body := TStruct [("F", TSlice leaf)] in
+  pwf_root "T" body = true /\ parse_ast_decl "p" "" "T" body <> parse_loader_decl "p" "" "T" body.
+Proof. split; [reflexivity|]. intros H. vm_compute in H. discriminate H. Qed.
+
+Example C13_needs_one_reference :
+  let body := TStruct [("F", TMap kind leaf)] in
+  pwf_root "T" body = false /\ parse_ast_decl "p" "gen/p" "T" body <> parse_loader_decl "p" "gen/p" "T" body.
+Proof. split; [reflexivity|]. intros H. vm_compute in H. discriminate H. Qed.
+
+Example C13_needs_single_pointer :
+  let body := TStruct [("F", TPtr (TPtr t_int32))] in
+  pwf_root "T" body = false /\ parse_ast_decl "p" "gen/p" "T" body <> parse_loader_decl "p" "gen/p" "T" body.
+Proof. split; [reflexivity|]. intros H. vm_compute in H. discriminate H. Qed.
+
+Example C13_needs_named_nonempty :
+  let body := TStruct [("F", TNamed "" (TSlice t_int32))] in
+  pwf_root "T" body = false /\ parse_ast_decl "p" "gen/p" "T" body <> parse_loader_decl "p" "gen/p" "T" body.
+Proof. split; [reflexivity|]. intros H. vm_compute in H. discriminate H. Qed.
+
+Example C13_needs_no_named_bytes : pwf_root (fst blob_unit) (snd blob_unit) = false.
+Proof. reflexivity. Qed.
+
+Example C13_needs_struct_map_or_slice_root :
+  pwf_root "Kind" t_int32 = false /\
+  parse_ast_decl "p" "gen/p" "Kind" t_int32 <> parse_loader_decl "p" "gen/p" "Kind" t_int32.
+Proof. split; [reflexivity|]. intros H. vm_compute in H. discriminate H. Qed.
